@@ -40,6 +40,7 @@ import (
 	"github.com/gofiber/fiber/v3"
 	fiberlog "github.com/gofiber/fiber/v3/log"
 	mw "github.com/gofiber/fiber/v3/middleware/cors"
+	"github.com/valyala/fasthttp"
 
 	"verifharness/internal/drive"
 	"verifharness/internal/ev"
@@ -578,6 +579,9 @@ func genOrigin(r *gen.Rand, s *cfgSpec) (o org, kind string, inDomain bool, raw 
 
 func genReq(r *gen.Rand, s *cfgSpec) *reqSpec {
 	q := &reqSpec{path: gen.Pick(r, []string{"/", "/", "/api/v1/items", "/x"})}
+	if r.Chance(1, 5) {
+		q.path = gen.Pick(r, otherOutcomePaths)
+	}
 	cls := r.PickW(2, 9, 2, 7)
 	switch cls {
 	case 0:
@@ -625,8 +629,9 @@ func genReq(r *gen.Rand, s *cfgSpec) *reqSpec {
 // building and judging
 
 type scenario struct {
-	cfg  *cfgSpec
-	reqs []*reqSpec
+	cfg      *cfgSpec
+	reqs     []*reqSpec
+	reuseCtx bool
 }
 
 func build(s *cfgSpec, entered *int) (app *fiber.App, panicked bool, pmsg string) {
@@ -667,12 +672,38 @@ func build(s *cfgSpec, entered *int) (app *fiber.App, panicked bool, pmsg string
 		})
 	}
 	app.Use(h)
-	app.All("/*", func(c fiber.Ctx) error {
+	ok := func(c fiber.Ctx) error {
 		*entered++
 		return c.SendString("H")
+	}
+	for _, p := range okPaths {
+		app.All(p, ok)
+	}
+	// downstream outcomes other than "handler answered 200": the rest of the chain ends with an
+	// error (4xx/5xx fiber error, plain error), there is no route (404) or not for this method
+	app.All("/fail/:what", func(c fiber.Ctx) error {
+		*entered++
+		switch c.Params("what") {
+		case "401":
+			return fiber.NewError(fiber.StatusUnauthorized, "no")
+		case "404":
+			return fiber.ErrNotFound
+		case "500":
+			return fiber.NewError(fiber.StatusInternalServerError, "boom")
+		case "after-write":
+			_ = c.SendString("partial")
+			return fiber.NewError(fiber.StatusBadGateway, "late")
+		}
+		return fmt.Errorf("plain error")
 	})
+	app.Get("/getonly", ok)
 	return app, false, ""
 }
+
+var okPaths = []string{"/", "/api/v1/items", "/x"}
+
+// otherOutcomePaths: requests whose downstream chain does not end with a plain 200.
+var otherOutcomePaths = []string{"/fail/401", "/fail/404", "/fail/500", "/fail/plain", "/fail/after-write", "/none/here", "/getonly"}
 
 func varySet(vals []string) map[string]bool {
 	m := map[string]bool{}
@@ -727,6 +758,12 @@ func judge(e *ev.Env, c *ev.Case, sc *scenario) {
 	}
 	d := drive.NewDirect(app)
 	all := s.allowAll()
+	// one RequestCtx for the whole history (what a keep-alive connection / the ctx pool does) or a
+	// fresh one per request
+	var shared fasthttp.RequestCtx
+	if sc.reuseCtx {
+		stat(e, "cases_on_one_request_ctx", 1)
+	}
 	for qi, q := range sc.reqs {
 		if q.funcToggle != "" && s.hasFunc {
 			if s.funcSet[q.funcToggle] {
@@ -767,13 +804,24 @@ func judge(e *ev.Env, c *ev.Case, sc *scenario) {
 			}
 			return m
 		}
-		if e.Guard(c, "request", detail(nil), func() { resp = d.Do(rq) }) {
+		if e.Guard(c, "request", detail(nil), func() {
+			if sc.reuseCtx {
+				shared.Response.Reset()
+				resp = d.DoCtx(&shared, rq)
+			} else {
+				resp = d.Do(rq)
+			}
+		}) {
 			continue
 		}
 		e.Eval(1)
 		cls := q.class()
 		stat(e, "pairs", 1)
 		stat(e, "class_"+cls, 1)
+		if !inStrs(okPaths, q.path) && cls != clsPreflight {
+			stat(e, "downstream_outcome_not_200", 1)
+			stat(e, fmt.Sprintf("downstream_status_%d", resp.Status), 1)
+		}
 		if q.hasOrigin && q.origin != "" && !all {
 			e.Nontrivial(strings.Join(s.originsText(), ","), fmt.Sprint(s.hasFunc, s.cred), q.origin, cls)
 		}
@@ -975,6 +1023,127 @@ func judge(e *ev.Env, c *ev.Case, sc *scenario) {
 	}
 }
 
+func inStrs(l []string, x string) bool {
+	for _, y := range l {
+		if x == y {
+			return true
+		}
+	}
+	return false
+}
+
+// sameLenVariant changes exactly one character of a serialized origin (scheme, host label,
+// last host character or port) so that the text keeps its length: the look-alike a request
+// buffer reused for the next request would hold at the very same bytes.
+func sameLenVariant(r *gen.Rand, o org) (org, string) {
+	alt := func(b byte, alphabet string) byte {
+		for {
+			if x := alphabet[r.Intn(len(alphabet))]; x != b {
+				return x
+			}
+		}
+	}
+	hostPos := func() []int {
+		var ps []int
+		for i := 0; i < len(o.host); i++ {
+			if c := o.host[i]; c >= 'a' && c <= 'z' || c >= '0' && c <= '9' {
+				ps = append(ps, i)
+			}
+		}
+		return ps
+	}
+	for {
+		switch r.Intn(4) {
+		case 0:
+			b := []byte(o.scheme)
+			i := 1 + r.Intn(len(b)-1)
+			b[i] = alt(b[i], gen.Lower)
+			v := o
+			v.scheme = string(b)
+			return v, "same-length:scheme"
+		case 1:
+			ps := hostPos()
+			if len(ps) == 0 {
+				continue
+			}
+			i := ps[r.Intn(len(ps))]
+			b := []byte(o.host)
+			if b[i] >= '0' && b[i] <= '9' {
+				b[i] = alt(b[i], "123456789")
+			} else if isIP(o.host) {
+				b[i] = alt(b[i], "abcdef")
+			} else {
+				b[i] = alt(b[i], gen.Lower)
+			}
+			v := o
+			v.host = string(b)
+			return v, "same-length:host-char"
+		case 2:
+			ps := hostPos()
+			if len(ps) == 0 || isIP(o.host) {
+				continue
+			}
+			i := ps[len(ps)-1]
+			b := []byte(o.host)
+			if b[i] >= '0' && b[i] <= '9' {
+				b[i] = alt(b[i], "123456789")
+			} else {
+				b[i] = alt(b[i], gen.Lower)
+			}
+			v := o
+			v.host = string(b)
+			return v, "same-length:last-host-char"
+		default:
+			if o.port == "" {
+				continue
+			}
+			b := []byte(o.port)
+			i := r.Intn(len(b))
+			b[i] = alt(b[i], "123456789")
+			v := o
+			v.port = string(b)
+			return v, "same-length:port"
+		}
+	}
+}
+
+// genHistory: a permitted origin written in lower case, then same-length variants of it, then the
+// permitted one again ... as simple requests and preflights.
+func genHistory(r *gen.Rand, s *cfgSpec) []*reqSpec {
+	var nonStar []entry
+	for _, e := range s.entries {
+		if !e.star {
+			nonStar = append(nonStar, e)
+		}
+	}
+	if len(nonStar) == 0 {
+		return nil
+	}
+	base := gen.Pick(r, nonStar)
+	o := base.o
+	if base.wild {
+		o.host = randLabel(r) + "." + o.host
+	}
+	mk := func(v org, kind string) *reqSpec {
+		q := &reqSpec{path: gen.Pick(r, okPaths), hasOrigin: true, origin: v.ser(), inDomain: true, o: v, kind: kind}
+		if r.Chance(1, 3) {
+			q.method, q.hasACRM, q.acrm = "OPTIONS", true, gen.Pick(r, []string{"GET", "POST", "PUT"})
+		} else {
+			q.method = gen.Pick(r, []string{"GET", "POST", "PUT", "DELETE"})
+		}
+		return q
+	}
+	var out []*reqSpec
+	for round := r.Range(2, 3); round > 0; round-- {
+		out = append(out, mk(o, "history-permitted-lowercase"))
+		for k := r.Range(1, 3); k > 0; k-- {
+			v, kind := sameLenVariant(r, o)
+			out = append(out, mk(v, kind))
+		}
+	}
+	return append(out, mk(o, "history-permitted-lowercase"))
+}
+
 // fillFunc lets the function accept a random subset of the origins that will be sent.
 func fillFunc(r *gen.Rand, sc *scenario) {
 	if !sc.cfg.hasFunc {
@@ -1077,6 +1246,14 @@ func run(e *ev.Env) {
 		sc := &scenario{cfg: genCfg(r)}
 		for i := 0; i < reqsPerCase; i++ {
 			sc.reqs = append(sc.reqs, genReq(r, sc.cfg))
+		}
+		sc.reuseCtx = r.Bool()
+		if r.Chance(1, 3) {
+			if h := genHistory(r, sc.cfg); h != nil {
+				at := r.Intn(len(sc.reqs) - len(h) + 1)
+				copy(sc.reqs[at:], h) // keeps the number of requests per case
+				stat(e, "histories_permitted_then_same_length_variants", 1)
+			}
 		}
 		fillFunc(r, sc)
 		if sc.cfg.hasFunc && r.Chance(1, 2) {
